@@ -300,3 +300,16 @@ def contracts():
     c = _c01.listselector_unchecked_contract()
     c.prop = PROP
     return _c18_base() + [c]
+
+
+# "membership of assigned values is always checked against the current objects": the validators (C01)
+_c18_base2 = contracts
+
+
+def contracts():
+    from contracts import c01 as _c01
+    extra = [c for c in _c01._c01_validators() if c.name.split(".")[0] in ("Selector", "ObjectSelector", "ListSelector")]
+    for c in extra:
+        c.prop = PROP
+    have = {c.name for c in _c18_base2()}
+    return _c18_base2() + [c for c in extra if c.name not in have]
